@@ -527,6 +527,26 @@ func c06Gen(t *rapid.T) C06Case {
 			c.Recs = keep
 		}
 	}
+	// Two lines of one stream whose fields differ only in where a quote sits: one field whose
+	// value spells `1",b="2`, against two fields a="1", b="2" (and the same msg field in both, so
+	// that nothing else tells the label sets apart). Each line keeps its own fields.
+	if kind == "json" && len(st.Labels) == 0 && len(st.Exprs) == 0 && rapid.IntRange(0, 7).Draw(t, "quote-shifted-pair") == 0 {
+		mk := func(fields []model.JField) model.Rec {
+			obj := model.JV{K: "obj", Obj: fields}
+			ts += 1e6
+			return model.Rec{TS: ts, Line: gen.BS(obj.Render()), Doc: &model.Doc{Format: "json", JSON: &obj}, Labels: map[string]string{}} // no label that sorts between a and b
+		}
+		str := func(s string) model.JV { return model.JV{K: "str", S: s} }
+		pair := []model.Rec{
+			mk([]model.JField{{Key: "msg", Val: str("same")}, {Key: "a", Val: str("1\",b=\"2")}}),
+			mk([]model.JField{{Key: "msg", Val: str("same")}, {Key: "a", Val: str("1")}, {Key: "b", Val: str("2")}}),
+		}
+		if rapid.Bool().Draw(t, "quote-shifted-order") {
+			pair[0], pair[1] = pair[1], pair[0]
+			pair[0].TS, pair[1].TS = pair[1].TS, pair[0].TS
+		}
+		c.Recs = append(c.Recs, pair...)
+	}
 	c.Stage = st
 	c.Text = gen.PrintLog(&gen.LogQuery{Stages: []gen.Stage{st}}, gen.Plain{})
 	return c
